@@ -1005,7 +1005,11 @@ class Model:
         if isinstance(other, Term):
             return self.add_term(Term(*self.common_components + other.components))
         elif isinstance(other, Model):
-            iterms = [Term(*self.common_components, comp) for comp in other.common_components]
+            iterms = [
+                Term(*self.common_components, *term.components)
+                for term in other.common_terms
+                if isinstance(term, Term)
+            ]
             return self + Model(*iterms)
         else:  # pragma: no cover
             return NotImplemented
